@@ -72,6 +72,76 @@ def template_key_sweep(tier="quick", seed=0):
                          "bound": f"all formats [l:r] with {lo} <= r <= l <= {hi}, all pairs"}]}
 
 
+_NESTED_SCRIPT = r'''
+import itertools, json
+from cohdl import std, BitVector
+BitField = std.bitfield.BitField
+Field = std.bitfield.Field
+
+
+def make_inner(order):
+    # one factory, one class NAME, different layouts: the two 2-bit fields in either order
+    class Inner(BitField[4]):
+        first: Field[1:0] if order == 0 else Field[3:2]
+        second: Field[3:2] if order == 0 else Field[1:0]
+
+    return Inner
+
+
+bad, n = [], 0
+for offset in (0, 4):
+    inners = [make_inner(0), make_inner(1)]
+    outers = []
+    for k, In in enumerate(inners):
+        ns = {"__annotations__": {"inner": In[offset + 3:offset], "rest": Field[(7 - offset):(4 - offset)]}}
+        outers.append(type(f"Outer{k}", (BitField[8],), ns))
+    for pattern in (0b00000000, 0b11111111, 0b01101001, 0b10010110, 0b00011011, 0b11100100):
+        text = format(pattern, "08b")
+        for k, Out in enumerate(outers):
+            n += 1
+            v = std.from_bits[Out](BitVector[8](text))
+            inner_bits = format((pattern >> offset) & 0xF, "04b")
+            lo, hi = inner_bits[2:4], inner_bits[0:2]
+            want = {"first": lo if k == 0 else hi, "second": hi if k == 0 else lo}
+            got = {"first": str(v.inner.first), "second": str(v.inner.second)}
+            if got != want:
+                bad.append(["nested-bitfield-layout", {"offset": offset, "layout": k, "pattern": text}, got, want])
+            if str(std.to_bits(v).get()) != text:
+                bad.append(["nested-bitfield-roundtrip", {"offset": offset, "layout": k, "pattern": text}, str(std.to_bits(v).get()), text])
+print("RESULT" + json.dumps({"evaluations": n, "bad": bad[:6]}))
+'''
+
+
+def nested_bitfield_sweep(tier="quick", seed=0):
+    """BOUNDED: two BitField classes with the SAME class name (two layouts from one factory) nested at the same offset of two outer
+    BitFields: every field reads exactly the range declared in ITS class, to_bits(from_bits(b)) == b."""
+    import json
+
+    from contracts.c06_extra import _run_design
+
+    rc, text = _run_design(_NESTED_SCRIPT)
+    if "RESULT" not in text:
+        return {"problems": [f"nested_bitfield_sweep: the script failed: {text[-300:]}"]}
+    data = json.loads(text[text.index("RESULT") + 6:].splitlines()[0])
+    fails = {}
+    for b in data["bad"]:
+        fails.setdefault(b[0], f"{b}")
+    violations = []
+    for key, what in sorted(fails.items()):
+        oid = f"C17/nested-bitfield-sweep[{key}]#bounded"
+        violations.append({"kind": "custom", "qual": "<nested BitFields>", "case": key, "oid": oid, "check": "nested_bitfield_sweep", "key": key, "assignment": {"deviation": key}, "solver": {"what": what}, "reproduced": True,
+                           "replay_payload": {"property": "C17", "custom": "contracts.c17_extra.replay_nested_bitfield", "key": key, "obligation": oid, "verifier_output": what}})
+    return {"evaluations": data["evaluations"], "distinct": data["evaluations"], "violations": violations, "samples": [{"evaluations": data["evaluations"]}],
+            "bounded": [{"function": "cohdl.std.bitfield:_BitFieldInst.__class_getitem__ / BitField.__init__", "case": "same-named nested BitFields", "evaluations": data["evaluations"], "exhaustive_within_bound": False,
+                         "bound": "2 layouts x offsets {0, 4} x 6 bit patterns"}]}
+
+
+def replay_nested_bitfield(payload):
+    r = nested_bitfield_sweep()
+    hit = [v for v in r.get("violations", []) if v["key"] == payload["key"]]
+    return {"reproduced": bool(hit), "detail": hit[0]["solver"]["what"] if hit else "every nested field reads its own range"}
+
+
 def replay_template_keys(payload):
     r = template_key_sweep(payload.get("tier", "quick"), 0)
     hit = [v for v in r.get("violations", []) if v["key"] == payload["key"]]
